@@ -130,6 +130,10 @@ public class Rat {
         return cmp(a, b) <= 0 ? b : a;
     }
 
+    public static Value REq(final Value a, final Value b) {
+        return bool(num(a).equals(num(b)) && den(a).equals(den(b)));
+    }
+
     public static Value RIsInt(final Value a) {
         return bool(den(a).equals(BigInteger.ONE));
     }
